@@ -73,7 +73,8 @@ def main():
         # point and canonical is claimed for these documents like for any other
         pops = [('main', 220 if quick else 5000, {}), ('explore_chords', 40 if quick else 300, {'profile': 'explore_chords'}),
                 ('invisible_barlines', 60 if quick else 800, {'profile': 'hidden'}),
-                ('multi_character_signifiers', 60 if quick else 800, {'profile': 'multi_sigs'})]
+                ('multi_character_signifiers', 60 if quick else 800, {'profile': 'multi_sigs'}),
+                ('added_spines_and_sections', 40 if quick else 500, {'ext': True})]
         for k, (label, n, kw) in enumerate(pops):
             fixed = label == 'explore_chords'          # a fixed corpus: its failing cases are listed one by one in known_findings.json
             part = docs.build_sessions(dp.sess_c01, [(777000000 + i) if fixed else (a.seed * 1000003 + k * 100000007 + i) for i in range(n)], **kw)
